@@ -151,4 +151,7 @@ def register(w):
     bounded(f"{MO}:_refresh_elementwise_output_shape", "declared_dims_of_a_refreshed_elementwise_output_hold_at_run_time", "C08_elementwise_refresh_family",
             "binary operator, operand ranks <= 3, extents in {1,3}, symbols B/C/unknown bound to 1 or 3, size-1 constants of rank <= 2",
             "_broadcast_shape_dims/_refresh_elementwise_output_shape work on heterogeneous tuples of int|SymbolicDim with nested loops over a list of tuples; not within the VC generator's subset")
+    bounded("jax2onnx.converter.ir_postprocess:postprocess_ir_model", "post_processing_only_forgets_dims_and_leaves_inputs_and_outputs_untouched", "C08_postprocess_family",
+            "110 models: one chain + one Loop body, declared dims from {int, named symbol, unknown}^rank for ranks 0..3, with and without promotion to double",
+            "ir_postprocess works on heterogeneous dim lists (int | SymbolicDim | None | str) and on nested graph attributes; not within the VC generator's subset")
     return api
